@@ -21,9 +21,9 @@ SRC_TIE = {
     "C05": _ST.format(f="typeutils._to_slot_size", t="XoGen.src_to_slot_size"),
     "C04": _ST.format(f="context._align, Chunk.overlaps, Chunk.merge", t="XoGen.src_align (alignments that are powers of two), src_chunk_overlaps, src_chunk_merge"),
     "C12": _ST.format(f="context._align, Chunk.size, Chunk.overlaps, Chunk.merge", t="XoGen.src_align (alignments that are powers of two), src_chunk_size, src_chunk_overlaps, src_chunk_merge"),
-    "C01": _ST.format(f="array.get_c_strides / get_strides / get_offset", t="XoGen.src_get_c_strides, src_get_strides, src_get_offset"),
+    "C01": _ST.format(f="array.get_c_strides / get_strides / get_offset / mk_order", t="XoGen.src_get_c_strides, src_get_strides, src_get_offset, src_item_offset, src_mk_order_*"),
     "C02": _ST.format(f="array.get_c_strides / get_strides", t="XoGen.src_get_c_strides, src_get_strides"),
-    "C06": _ST.format(f="array.get_c_strides / get_strides / get_offset", t="XoGen.src_get_c_strides, src_get_strides, src_get_offset"),
+    "C06": _ST.format(f="array.get_c_strides / get_strides / get_offset / mk_order", t="XoGen.src_get_c_strides, src_get_strides, src_get_offset, src_item_offset, src_mk_order_*"),
     "C11": _ST.format(f="array.bound_check", t="XoGen.src_bound_check (IndexError exactly when the model's boundCheck refuses)"),
 }
 
@@ -398,7 +398,7 @@ def main():
             "name": "source-to-lean translator",
             "path": "checks/pygen.py, lean/XoGen/ (Lake library XoGen: generated Src/*.lean + hand-written Tie*.lean)",
             "serves_properties": sorted(SRC_TIE),
-            "kind_free_text": "the arithmetic helpers of /repo (_to_slot_size, _align, get_c_strides, get_strides, get_offset, bound_check, Chunk.size / overlaps / merge) are "
+            "kind_free_text": "the arithmetic helpers of /repo (_to_slot_size, _align, get_c_strides, get_strides, get_offset, bound_check, mk_order, Chunk.size / overlaps / merge) are "
                               "regenerated as Lean definitions from the source text on every run; kernel-checked theorems state that "
                               "each equals the model's definition for all inputs",
         }],
